@@ -280,11 +280,11 @@ func (db *TempPool) OperationHashes(
 	}
 
 	ops := make([][2]util.Hash, limit)
-	removeordereds := make([][]byte, limit)
-	removeops := make([]util.Hash, limit)
+
+	var removeordereds [][]byte
+	var removeops []util.Hash
 
 	var opsindex uint64
-	var removeorderedsindex, removeopsindex uint64
 
 	facts := map[string]uint64{}
 	defer func() {
@@ -295,10 +295,13 @@ func (db *TempPool) OperationHashes(
 	if err := pst.Iter(
 		leveldbutil.BytesPrefix(leveldbKeyPrefixNewOperationOrdered[:]),
 		func(k []byte, b []byte) (bool, error) {
+			if opsindex == limit {
+				return false, nil
+			}
+
 			meta, err := ReadFrameHeaderOperation(b)
 			if err != nil {
-				removeordereds[removeorderedsindex] = k
-				removeorderedsindex++
+				removeordereds = append(removeordereds, k)
 
 				return true, nil
 			}
@@ -307,33 +310,30 @@ func (db *TempPool) OperationHashes(
 			case err != nil:
 				return false, err
 			case !ok:
-				removeops[removeopsindex] = meta.Operation()
-				removeopsindex++
+				removeops = append(removeops, meta.Operation())
 
 				return true, nil
 			}
 
-			// NOTE filter duplicated fact; last one will be selected
+			// NOTE filter duplicated fact; last one will be selected and the
+			// previous one will be removed
 			if prev, found := facts[meta.Fact().String()]; found {
-				removeops[removeopsindex] = meta.Operation()
-				removeopsindex++
+				removeops = append(removeops, ops[prev][0])
 
-				nops := make([][2]util.Hash, len(ops))
-				copy(nops, ops[:prev])
-				copy(nops[prev:], ops[prev+1:])
-
-				ops = nops
+				copy(ops[prev:], ops[prev+1:opsindex])
 
 				opsindex--
+
+				for i := range facts {
+					if facts[i] > prev {
+						facts[i]--
+					}
+				}
 			}
 
 			ops[opsindex] = [2]util.Hash{meta.Operation(), meta.Fact()}
 			facts[meta.Fact().String()] = opsindex
 			opsindex++
-
-			if opsindex == limit {
-				return false, nil
-			}
 
 			return true, nil
 		},
@@ -342,11 +342,11 @@ func (db *TempPool) OperationHashes(
 		return nil, e.Wrap(err)
 	}
 
-	if err := db.removeNewOperationOrdereds(removeordereds[:removeorderedsindex]); err != nil {
+	if err := db.removeNewOperationOrdereds(removeordereds); err != nil {
 		return nil, e.Wrap(err)
 	}
 
-	if err := db.setRemoveNewOperations(ctx, height, removeops[:removeopsindex]); err != nil {
+	if err := db.setRemoveNewOperations(ctx, height, removeops); err != nil {
 		return nil, e.Wrap(err)
 	}
 
